@@ -207,7 +207,7 @@ Proof.
     - unfold run_tx in H. destruct (validate_basic m); [|discriminate].
       destruct (handle _ m) as [x| |] eqn:Hh; try discriminate. injection H as <-.
       apply handle_keeps in Hh. unfold mint_same. keeps_solve.
-    - injection H as <-.
+    - destruct (forallb pchange_valid _); [|discriminate]. injection H as <-.
       apply (fold_left_inv (fun x => mint_same s x /\ inflations x = inflations s)).
       + intros x c Hx. pose proof (apply_pchange_keeps x c). unfold mint_same in *. keeps_solve.
       + unfold mint_same. repeat split; reflexivity.
